@@ -56,6 +56,8 @@ def cases(tier, seed):
     out = []
     for D, Dz, dt, dxy in itertools.product(DS, DS, DTS, range(len(DXS))):
         out.append(dict(D=D, Dz=Dz, dt=dt, dxy=dxy, steps=b["steps"], particles=b["particles"]))
+    for D, dt, sg in itertools.product([1e-2, 1.0, 100.0], [60, 3600], [None, [1, 7, 3, 8], [4, 10, 1, 6], [2, 9, 2, 7]]):
+        out.append(dict(mode="roms", D=D, dt=dt, subgrid=sg))
     return out
 
 
@@ -79,7 +81,7 @@ class Tagged:
         raise util.HarnessError(f"tracker used rng.{name}: only normal(size=n) is scripted")
 
 
-def run_one(D, Dz, dt, dxy, nsteps, npart, adv):
+def run_one(D, Dz, dt, dxy, nsteps, npart, adv, inactive=False, wadv=0.0):
     from ladim.state import State
     from ladim.timekeeper import TimeKeeper
     from ladim.tracker import Tracker
@@ -96,8 +98,8 @@ def run_one(D, Dz, dt, dxy, nsteps, npart, adv):
     mods["grid"] = g = plugin("agrid").Grid(modules=mods, imax=40, jmax=30, dx=dx, dy=dy, h=5000.0, metric="cellwise" if cellwise else "uniform")
     # cell-wise metric: a steady current carries the particles into cells with another spacing (0.45 cells of the base spacing per step)
     ua, va = (0.45 * dx / dt, 0.3 * dx / dt) if cellwise else (0.0, 0.0)
-    mods["forcing"] = fo = plugin("aforce").Forcing(mods, field="const" if cellwise else "still", params=dict(a=ua, b=va, L=1.0), record=False)
-    tr = Tracker(advection=adv, diffusion=D, vertdiff=Dz, modules=mods)
+    mods["forcing"] = fo = plugin("aforce").Forcing(mods, field="const" if cellwise else "still", params=dict(a=ua, b=va, L=1.0), w=wadv, record=False)
+    tr = Tracker(advection=adv, diffusion=D, vertdiff=Dz, vertical_advection=bool(wadv), modules=mods)
     mods["tracker"] = tr
     if not isinstance(tr.rng, np.random.Generator):
         return ("generator-type", f"Tracker.rng is {type(tr.rng)}, not numpy.random.Generator")
@@ -110,6 +112,8 @@ def run_one(D, Dz, dt, dxy, nsteps, npart, adv):
     Y0 = np.array([15.0, 14.5, 16.75][:npart])
     Z0 = np.array([600.0, 650.0, 700.0][:npart])
     st.append(X=X0, Y=Y0, Z=Z0)
+    if inactive:
+        st["active"][0] = False  # a settled particle stored BEFORE the active ones: it must not move, the others must diffuse
     for s in range(nsteps):
         mods["time"].update()
         fo.update()
@@ -127,7 +131,9 @@ def run_one(D, Dz, dt, dxy, nsteps, npart, adv):
         pool = np.concatenate(draws) if draws else np.array([])  # every scalar drawn in this step (fresh by construction)
         if not st.alive.all():
             return ("displacement:left-grid", f"step {s}: a particle left the 40x30 grid although the scripted draws allow at most 0.02 cells per step")
-        ddx, ddy, ddz = st.X - xb, st.Y - yb, st.Z - zb
+        ddx, ddy, ddz = st.X - xb, st.Y - yb, st.Z - zb - wadv * dt
+        if inactive and (ddx[0] != 0 or ddy[0] != 0):
+            return ("inactive-moved", f"step {s}: the inactive particle was displaced by ({ddx[0]}, {ddy[0]})")
         mdx, mdy = np.full(npart, float(dx)), np.full(npart, float(dy))
         if cellwise:  # the spacing of the cell occupied when the step began; the advective part is removed
             I, J = xb.round().astype(int), yb.round().astype(int)
@@ -142,6 +148,8 @@ def run_one(D, Dz, dt, dxy, nsteps, npart, adv):
             if sig == 0:
                 continue
             for i in range(npart):
+                if inactive and i == 0 and name != "z":
+                    continue
                 metric = float(metric_[i])
                 if len(pool) == 0:
                     return ("no-draw", f"step {s}: coefficient > 0 but nothing was drawn")
@@ -157,20 +165,77 @@ def run_one(D, Dz, dt, dxy, nsteps, npart, adv):
     return None
 
 
+def run_roms(case):
+    """The real ROMS Grid.metric: spacing varying along eta, subgrids with i0 != j0, still water."""
+    from ladim.ROMS import Grid
+    from ladim.state import State
+    from ladim.timekeeper import TimeKeeper
+    from ladim.tracker import Tracker
+
+    jj, ii = np.meshgrid(np.arange(9), np.arange(11), indexing="ij")
+    dxs = 400.0 * (1.0 + 0.25 * (jj % 3) + 0.0 * ii)
+    w = world.World(imax=11, jmax=9, N=2, h=200.0, dx=dxs)
+    d = util.scratch("c11")
+    f = w.write_file(d / "g.nc", [dict(t=S0, **w.zeros())])
+    D, dt, sg = case["D"], case["dt"], case["subgrid"]
+    lim = sg or [1, 10, 1, 8]
+    mods = {}
+    mods["time"] = TimeKeeper(start=world.iso(S0), stop=world.iso(S0 + 100 * dt), dt=dt)
+    mods["state"] = st = State()
+    mods["grid"] = Grid(f, subgrid=sg)
+    mods["forcing"] = fo = plugin("aforce").Forcing(mods, field="still", record=False)
+    tr = Tracker(advection="", diffusion=D, modules=mods)
+    mods["tracker"] = tr
+    sig = (2 * D * dt) ** 0.5
+    rng = Tagged(min(1.0, 0.02 * 400.0 / sig))
+    tr.rng = rng
+    P = [(x, y) for x in np.arange(lim[0] + 0.8, lim[1] - 1.6, 1.3) for y in np.arange(lim[2] + 0.8, lim[3] - 1.6, 0.9)]
+    st.append(X=np.array([p[0] for p in P]), Y=np.array([p[1] for p in P]), Z=5.0)
+    n = len(P)
+    viols = []
+    for s_ in range(2):
+        mods["time"].update()
+        fo.update()
+        xb, yb = st.X.copy(), st.Y.copy()
+        c0 = rng.calls
+        try:
+            tr.update()
+        except util.HarnessError:
+            raise
+        except Exception as e:
+            return util.result(evals=1, nontrivial=1, viol=[util.viol("roms-metric:exception", f"{case}: tracker.update raised {e!r}", case)])
+        pool = np.concatenate(rng.log[c0:]) if rng.log[c0:] else np.array([])
+        for name, disp, pos in (("x", st.X - xb, xb), ("y", st.Y - yb, yb)):
+            for i in range(n):
+                m = dxs[int(round(yb[i])), int(round(xb[i]))]
+                exp = sig * pool / m
+                j = int(np.argmin(np.abs(disp[i] - exp))) if len(pool) else 0
+                if not len(pool) or abs(disp[i] - exp[j]) > 1e-9 * abs(exp[j]) + 16 * np.finfo(float).eps * abs(pos[i]):
+                    if not viols:
+                        viols.append(util.viol("roms-metric:displacement", f"{case}: particle at ({xb[i]:.2f},{yb[i]:.2f}) {name}-displacement {disp[i]} is not sqrt(2*D*dt)/dx(cell)={sig / m} times a drawn value", case))
+    return util.result(evals=2 * n, nontrivial=2 * n, viol=viols, outcomes=[["roms", str(sg)]], states=2 * n, transitions=2 * n, sample=dict(case, particles=n))
+
+
 def run_case(case):
     viols, n, nt = [], 0, 0
     outcomes = set()
-    for nsteps, npart, adv in itertools.product(case["steps"], case["particles"], ["", "EF"]):
-        if "only" in case and case["only"] != [nsteps, npart, adv]:
+    if case.get("mode") == "roms":
+        return run_roms(case)
+    combos = [(n_, p_, a_, False, 0.0) for n_, p_, a_ in itertools.product(case["steps"], case["particles"], ["", "EF"])]
+    combos += [(2, 3, "", True, 0.0), (2, 3, "EF", True, 0.0)]  # with an inactive particle in front
+    if case["Dz"] > 0:
+        combos += [(2, 3, "", False, 0.5 / case["dt"])]  # vertical advection on top of the vertical random walk
+    for nsteps, npart, adv, inact, wadv in combos:
+        if "only" in case and case["only"] != [nsteps, npart, adv, inact, wadv]:
             continue
-        res = run_one(case["D"], case["Dz"], case["dt"], case["dxy"], nsteps, npart, adv)
+        res = run_one(case["D"], case["Dz"], case["dt"], case["dxy"], nsteps, npart, adv, inact, wadv)
         n += nsteps * npart
         if case["D"] > 0 or case["Dz"] > 0:
             nt += 1
         outcomes.add((case["D"] > 0, case["Dz"] > 0))
         if res is not None and not any(v["sig"] == res[0] for v in viols):
-            c = dict(case, only=[nsteps, npart, adv])
-            viols.append(util.viol(res[0], f"D={case['D']} Dz={case['Dz']} dt={case['dt']} dx,dy={DXS[case['dxy']]} steps={nsteps} particles={npart} advection={adv!r}: {res[1]}", c))
+            c = dict(case, only=[nsteps, npart, adv, inact, wadv])
+            viols.append(util.viol(res[0], f"D={case['D']} Dz={case['Dz']} dt={case['dt']} dx,dy={DXS[case['dxy']]} steps={nsteps} particles={npart} advection={adv!r} inactive-first={inact} w={wadv}: {res[1]}", c))
     return util.result(evals=n, nontrivial=nt, viol=viols, outcomes=[list(o) for o in outcomes], states=n, transitions=n * 3, sample=dict(case))
 
 
